@@ -62,6 +62,37 @@ def run_one(name, check, tier, seed):
         shutil.rmtree(work, ignore_errors=True)
 
 
+def demo_one(name):
+    """is the seeded change still live on the current tree? apply it to a scratch copy and run its own demonstration"""
+    d = find(name)
+    demo = os.path.join(d, 'demo.py')
+    work = tempfile.mkdtemp(prefix='kvdemo_')
+    try:
+        src = os.path.join(work, 'src')
+        os.makedirs(src)
+        shutil.copytree('/repo/klepto', os.path.join(src, 'klepto'), ignore=shutil.ignore_patterns('__pycache__', '*.pyc'))
+        r = subprocess.run(['git', 'apply', '--unsafe-paths', '--directory', src, os.path.join(d, 'patch.diff')], cwd=src, capture_output=True, text=True)
+        if r.returncode != 0:
+            r = subprocess.run(['patch', '-p1', '-i', os.path.join(d, 'patch.diff')], cwd=src, capture_output=True, text=True)
+            if r.returncode != 0:
+                return (name, 'patch-does-not-apply')
+        if not os.path.exists(demo):
+            return (name, 'no-demo')
+        env = dict(os.environ, PYTHONPATH=src, PYTHONDONTWRITEBYTECODE='1')
+        env.pop('LD_PRELOAD', None)
+        # demos written by sub-agents locate klepto through PYTHONPATH; older ones sit next to a 'klepto' dir: give them one
+        dd = os.path.join(src, 'demo')
+        os.makedirs(dd)
+        shutil.copy(demo, os.path.join(dd, 'demo.py'))
+        try:
+            p = subprocess.run(['/venv/bin/python', os.path.join(dd, 'demo.py')], cwd=work, env=env, capture_output=True, text=True, timeout=600)
+        except subprocess.TimeoutExpired:
+            return (name, 'demo-timeout')
+        return (name, 'live (demo fails)' if p.returncode != 0 else 'NEUTRALISED on the current tree (demo passes with the change applied)')
+    finally:
+        shutil.rmtree(work, ignore_errors=True)
+
+
 def main():
     ap = argparse.ArgumentParser()
     ap.add_argument('cmd')
@@ -73,6 +104,11 @@ def main():
     a = ap.parse_args()
     if a.cmd == 'list':
         print('\n'.join(all_names()))
+        return
+    if a.cmd == 'demo':
+        with ThreadPoolExecutor(a.jobs) as ex:
+            for res in ex.map(demo_one, a.names or all_names()):
+                print('%-12s %s' % res)
         return
     names = all_names() if a.cmd == 'all' else a.names
     jobs = []
